@@ -190,8 +190,13 @@ def judge_case(ctx, res):
 def decision_cases(root):
     """create_or_load / exists on an empty directory, for every version."""
     cases = []
+    n = 0
     for i, schema in enumerate(ALL_SCHEMAS):
-        d = os.path.join(root, dir_name("dec%d" % i, i))
+      # what is already in the place where the library is to be created: an empty directory, nothing at all, a Database2
+      # folder without a database (a library reset by deleting m.db, a copied folder skeleton), unrelated files
+      for shape in ("empty-directory", "no-directory", "empty-Database2-folder", "unrelated-files-and-Database2-folder"):
+        d = os.path.join(root, dir_name("dec%d" % n, n))
+        n += 1
         ops = [{"op": "exists", "dir": d},
                {"op": "create_or_load", "schema": schema, "dir": d, "alias": i % 2 == 1},
                {"op": "exists", "dir": d},
@@ -199,7 +204,7 @@ def decision_cases(root):
                {"op": "load", "dir": d},
                {"op": "release_all"},
                {"op": "exists", "dir": os.path.join(d, "no-such-subdir")}]
-        cases.append({"id": "dec%d" % i, "schema": schema, "dir": d, "ops": ops, "_decision": True})
+        cases.append({"id": "dec%d" % n, "schema": schema, "dir": d, "ops": ops, "_decision": True, "_shape": shape})
     return cases
 
 
@@ -210,6 +215,7 @@ def judge_decision(ctx, res):
     ev = res.events
     ctx.count()
     ctx.bump("decision_table_rows")
+    ctx.bump_in("decision_table_directory_shapes", res.case.get("_shape", "empty-directory"))
     if res.crash or len(ev) < 7:
         ctx.violation(f"decision-table-incomplete {fam}", f"{schema}: create_or_load decision sequence did not complete", wit)
         return
@@ -255,7 +261,16 @@ def run(ctx):
                 n += 1
         dec = decision_cases(root)
         for c in cases + dec:
+            shape = c.get("_shape", "empty-directory")
+            if shape == "no-directory":
+                os.makedirs(os.path.dirname(c["dir"]), exist_ok=True)
+                continue
             os.makedirs(c["dir"], exist_ok=True)
+            if shape != "empty-directory":
+                os.makedirs(os.path.join(c["dir"], "Database2"), exist_ok=True)
+            if shape == "unrelated-files-and-Database2-folder":
+                open(os.path.join(c["dir"], "notes.txt"), "w").write("x")
+                open(os.path.join(c["dir"], "Database2", "other.db"), "w").write("y")
         c0 = cases[0]
         ctx.sample({"schema": c0["schema"], "ops": [{k: (str(v)[:60]) for k, v in o.items()} for o in c0["ops"][:10]]})
         ctx.assumptions += ["the observation is compared with itself across close/reload, so no normalisation is involved",
